@@ -13,6 +13,7 @@
 import concurrent.futures
 import glob
 import os
+import zlib
 
 import vplib
 import mem_gen
@@ -121,13 +122,17 @@ class FaultEnum(object):
         self.injected = 0
         self.outcomes = {"still-succeeds": 0, "enomem": 0, "other": 0}
         self.per_op = {}
+        self.norepeat_run = 0
+        self.norepeat_judged = 0
+        self.asbefore_other = {}
 
-    def record(self, sig, what, ops, i, k, err):
+    def record(self, sig, what, ops, i, k, err, norepeat=False):
         key = tuple(sorted((a, str(b)) for a, b in sig.items()))
         if key in self.seen:
             return
         self.seen[key] = (sig, what, {"script": ops, "op_index": i, "k": k,
-                                      "how": "harness/mem_harness.c <script> <workdir> %d %d" % (k, i), "stderr": err[-2500:]})
+                                      "how": "harness/mem_harness.c <script> <workdir> %d %d%s" % (k, i, " 1   (no repeat of the failed call)" if norepeat else ""),
+                                      "stderr": err[-2500:]})
 
     def sanitize(self, ops, label):
         """drop ops on which the fault-free run itself faults (those are C03's findings)"""
@@ -219,8 +224,55 @@ class FaultEnum(object):
                 self.record({"kind": "c12-leak", "op": opname, "function": fn},
                             "final live count %s instead of %s (blocks allocated in %s): %s" % (r.end, r0.end, fn, where), ops, i, k, r.err)
 
-    def enumerate(self, ops, label, budget):
-        """exhaustive in k for every op of the history; returns the number of faulted runs used"""
+    def check_norepeat(self, ops, r0, i, k, ref):
+        r = mem_gen.run_script(self.ctx, self.exe, ops, k=k, opindex=i, leak=False, norepeat=True)
+        if r.fault is None and r.completed and ref is not None and r.end != ref.end:
+            r = mem_gen.run_script(self.ctx, self.exe, ops, k=k, opindex=i, leak=True, norepeat=True)
+        return (i, k, r)
+
+    def judge_norepeat(self, ops, i, k, r, ref, label):
+        """the failed call is NOT repeated: the rest of the history must run without crash / sanitizer report, everything must still be
+        freed, and every later op must give what it gives in the history from which the failed call is absent (no half-built object)"""
+        opname = ops[i].split(" ")[0]
+        where = "op %d `%s` with its allocation request %d failing, the call not repeated (history %s)" % (i, ops[i][:60], k, label)
+        if r.fault is not None:
+            sig = dict(r.fault)
+            sig["op"] = opname
+            sig["phase"] = "after-failed-call"
+            self.record(sig, "%s in %s: %s" % (sig["error"], sig.get("function"), where), ops, i, k, r.err, norepeat=True)
+            return
+        if not r.completed:
+            self.record({"kind": "fault", "error": "no-END", "function": None, "op": opname, "phase": "after-failed-call"}, "harness died rc=%d: %s" % (r.rc, where), ops, i, k, r.err, norepeat=True)
+            return
+        if r.fline is None or not r.fline["injected"] or not r.fline["failed"] or ref is None or ref.fault is not None or not ref.completed:
+            return
+        self.norepeat_judged += 1
+        base = {l["idx"]: l for l in ref.lines if not l["rep"]}
+        for l in r.lines:
+            if l["idx"] <= i or l["rep"]:
+                continue
+            bl = base.get(l["idx"] - 1)
+            if bl is None or cmp_key(l) != cmp_key(bl):
+                if not opname.startswith("n"):
+                    # "as if the call had never been made" is judged for the calibration builder only (vnacal_new_*: DI90 / DI91 / DI92 were
+                    # decided on this criterion).  Elsewhere a failed call may legitimately leave traces the property does not forbid (a file a
+                    # failed save created, the part of a file a failed load had read, the conformed path of a property expression): counted, not judged
+                    self.asbefore_other[(opname, l["op"])] = self.asbefore_other.get((opname, l["op"]), 0) + 1
+                    break
+                self.record({"kind": "c12-not-as-before", "op": opname, "later_op": l["op"]},
+                            "after the failed call (not repeated) the later op %d `%s` gives %s/%s/%s; in the history without the call it gives %s: %s" % (
+                                l["idx"], ops[l["idx"]][:50], l["ret"], l["errno"], l["val"], (bl["ret"], bl["errno"], bl["val"]) if bl else None, where),
+                            ops, i, k, r.err, norepeat=True)
+                return
+        if r.end != ref.end:
+            extra = {fn: c - ref.leaks.get(fn, 0) for fn, c in r.leaks.items() if c > ref.leaks.get(fn, 0)}
+            for fn in sorted(extra) or [None]:
+                self.record({"kind": "c12-leak", "op": opname, "function": fn, "phase": "after-failed-call"},
+                            "final live count %s instead of %s (blocks allocated in %s): %s" % (r.end, ref.end, fn, where), ops, i, k, r.err, norepeat=True)
+
+    def enumerate(self, ops, label, budget, norepeat=False):
+        """exhaustive in k for every op of the history; returns the number of faulted runs used.
+        norepeat: every (op, k) is replayed a second time WITHOUT repeating the failed call (judge_norepeat)"""
         ops, r0 = self.sanitize(ops, label)
         if ops is None:
             return 0
@@ -244,6 +296,23 @@ class FaultEnum(object):
             self.jobs_run += 1
             self.ctx.count(("fault", label, i, k))
             self.judge(ops, r0, i, k, r, label)
+        if norepeat:
+            if norepeat == "ends":
+                # first and last request of every op only (the last one is where a call has changed most before it fails)
+                per = {}
+                for (i, k) in jobs:
+                    per.setdefault(i, []).append(k)
+                jobs = sorted(set((i, k) for i, ks in per.items() for k in (min(ks), max(ks))))
+            # reference for op i: the fault-free history from which op i is absent
+            refs = {}
+            for i in sorted(set(j[0] for j in jobs)):
+                refs[i] = mem_gen.run_script(self.ctx, self.exe, ops[:i] + ops[i + 1:], leak=False)
+            with concurrent.futures.ThreadPoolExecutor(max_workers=max(2, vplib.NPROC)) as ex:
+                results = list(ex.map(lambda j: self.check_norepeat(ops, r0, j[0], j[1], refs[j[0]]), jobs))
+            for i, k, r in sorted(results, key=lambda t: (t[0], t[1])):
+                self.norepeat_run += 1
+                self.ctx.count(("fault-norepeat", label, i, k))
+                self.judge_norepeat(ops, i, k, r, refs[i], label)
         return len(jobs)
 
     def flush(self):
@@ -287,7 +356,10 @@ def run(ctx):
         ops = mem_gen.gen_script(ctx.rng, 14 if quick else 40, mods, p_bad=0.1)
         hist.append(("gen/%s/%d" % ("".join(mods), h), ops))
     for label, ops in hist:
-        n = fe.enumerate(ops, label, total_budget - used)
+        # the no-repeat replays: every (op, k) of every history in the thorough tier; in the quick tier every k for a third of the histories
+        # (rotating with the seed) and the first and last request of every op for the others
+        nr = True if ((not quick) or (zlib.crc32(label.encode()) % 3 == ctx.seed % 3)) else "ends"
+        n = fe.enumerate(ops, label, total_budget - used, norepeat=nr)
         if n < 0:
             skipped.append((label, -n))
             continue
@@ -297,6 +369,9 @@ def run(ctx):
     tie_broken = tie_broken + mem_tie.run_new_tie(ctx, "C12")
     fe.flush()
     ctx.extra["faulted_replays"] = fe.jobs_run
+    ctx.extra["faulted_replays_without_repeat"] = fe.norepeat_run
+    ctx.extra["failed_calls_judged_without_repeat"] = fe.norepeat_judged
+    ctx.extra["not_as_before_outside_the_calibration_builder(op, later op): count - observed, not judged"] = {"%s -> %s" % k: v for k, v in sorted(fe.asbefore_other.items())}
     ctx.extra["faults_injected"] = fe.injected
     ctx.extra["outcomes"] = fe.outcomes
     ctx.extra["per_op_still_succeeds_vs_enomem"] = {k: v for k, v in sorted(fe.per_op.items())}
